@@ -4,7 +4,7 @@
    model (carried by the block description, not axioms): verification of the consensus witness, admission
    of the transactions by the per-block scratch pool, execution of the block.
    [afix_none] = the code at the pinned commit, [afix_all] = with fixes/F35, F36 applied. *)
-From NG Require Import Common.Tactics Node.Accept Node.AcceptProofs Node.AcceptPool Node.AcceptPoolProofs Admission.Conflicts Node.AcceptConflicts Node.AcceptPolicy.
+From NG Require Import Common.Tactics Node.Accept Node.AcceptProofs Node.AcceptPool Node.AcceptPoolProofs Admission.Conflicts Node.AcceptConflicts Node.AcceptPolicy Node.AcceptRace.
 Open Scope N_scope.
 
 (* accepted <=> the conjunction the property lists (next index; state-root setting; linked to the tip with a
@@ -128,6 +128,27 @@ Theorem C06_policy_refresh_cached_refuted :
   stale_accepted pol_vub t_far /\ stale_accepted pol_downup t_big.
 Proof. exact policy_refresh_cached_refuted. Qed.
 Print Assumptions C06_policy_refresh_cached_refuted.
+
+(* ---- admission RACING block application (Node/AcceptRace.v) ----
+   The admission of a transaction is two steps, verification against the tip and insertion into the pool.  For every
+   history in which no block is applied between a verification and its insertion ([atomic]: what bc.lock.RLock in
+   PoolTx enforces against storeBlock's bc.lock.Lock) every pooled transaction is valid at the current height. *)
+Theorem C06_admission_atomic_pool_sound : forall (tx_valid relevant : N -> N -> bool) (verify : bool),
+  (forall h t, relevant h t = true -> tx_valid h t = true) ->
+  forall ops n0, atomic ops = true ->
+    let st := rrun tx_valid relevant verify (n0, [], None) ops in
+    forall t, In t (snd (fst st)) -> tx_valid (fst (fst st)) t = true.
+Proof. exact admission_atomic_pool_sound. Qed.
+Print Assumptions C06_admission_atomic_pool_sound.
+
+(* refuted with a block in between: T (ValidUntilBlock = 2) verified at height 1, block 2 applied and the pool
+   refreshed, T inserted, block 3 carrying T accepted; the atomic order refuses it *)
+Theorem C06_admission_atomic_pool_sound_refuted :
+  rrun wp_valid wp_valid true (1, [], None) [RVerify 7; ROffer []; RInsert; ROffer [7]] = (3, [], None) /\
+  wp_valid 2 7 = false /\
+  rrun wp_valid wp_valid true (1, [], None) [RVerify 7; RInsert; ROffer []; ROffer [7]] = (2, [], None).
+Proof. exact admission_race_refuted. Qed.
+Print Assumptions C06_admission_atomic_pool_sound_refuted.
 
 (* ---- on-chain Conflicts backed by ANY signer (Node/AcceptConflicts.v over the record-table model of
    Admission/Conflicts.v) ----
